@@ -568,8 +568,18 @@ def run(ctx):
             nfail += 1
             if nfail <= 6:
                 shr = shrink(ctx, hexe, drv, line, st.checks[i], meta)
-                ctx.violation('case_%d' % i, dict(case=line, shrunk=shr, kind=meta.get('kind'), implementation=io, model=mo, why=why,
-                                                  replay='echo "%s" | %s    # model: | %s' % (shr or line, hexe, drv)), msg='%s :: %s' % (why, (shr or line)[:200]))
+                shr_why = shr_io = shr_mo = None
+                if shr and shr != line:              # what fails on the minimised input
+                    try:
+                        shr_io = ctx.run_lines([hexe], [shr], timeout=20)[0]
+                        shr_mo = ctx.run_lines([drv], [shr], timeout=20)[0] if drv else None
+                        shr_why = corpus_check(shr)(shr_io, shr_mo)
+                    except Exception:
+                        pass
+                ctx.violation('case_%d' % i, dict(case=line, kind=meta.get('kind'), implementation=io, model=mo, why=why,
+                                                  shrunk=shr, shrunk_implementation=shr_io, shrunk_model=shr_mo, shrunk_why=shr_why,
+                                                  replay='echo "%s" | %s    # model: | %s' % (shr or line, hexe, drv)),
+                              msg='%s :: %s' % (shr_why or why, (shr if shr_why else line)[:200]))
     ctx.cov['traces_validated_against_impl'] = len(st.lines)
     ctx.notes['distribution'] = dict(sorted(dist.items()))
     for l in st.lines[:2] + st.lines[len(st.lines) // 2: len(st.lines) // 2 + 2]:
@@ -1101,7 +1111,8 @@ def shrink(ctx, hexe, drv, line, check, meta):
             if io.startswith('CRASH') or io == 'TIMEOUT':
                 return True
             try:
-                return bool(ck(io, mo))
+                r = ck(io, mo)
+                return bool(r) and not r.startswith('KF')      # a known-finding input is not a reproduction of THIS failure
             except Exception:
                 return False
         if tag in ('E', 'C') or not fails(line):
